@@ -1,6 +1,7 @@
 import contextlib
 import errno
 import os
+import select
 import signal
 from typing import List, Optional, Tuple  # pylint: disable=unused-import
 
@@ -35,6 +36,14 @@ class SigchldHelper:
             self._read_pipe = None
 
     def wait(self) -> Tuple[int, int]:
+        # The pipe is written by `_handler()`, which Python only runs in the
+        # main thread in between bytecode instructions. If SIGCHLD is delivered
+        # after the interpreter last checked for pending signals but before
+        # this thread blocks, nothing would interrupt a blocking read and the
+        # handler (and thus the write) would never run. So we never block
+        # indefinitely: each time the wait times out, pending handlers run.
+        while len(select.select([self._read_pipe], [], [], 0.05)[0]) == 0:
+            pass
         _ = os.read(self._read_pipe, 1)
         return self._extract_any()
 
